@@ -52,7 +52,13 @@ def main():
                   "baseline_off_cmd": "cd /repo && /venv/bin/python -m pytest -ra -q -p no:cacheprovider --timeout=900 --continue-on-collection-errors",
                   "source_commits": [], "add_only": True},
         "engines": [
-            {"name": "symx", "path": "vf/", "serves_properties": sorted(CHECKS), "kind_free_text": "concolic/symbolic executor for numpy+tensornetwork code over z3 terms; SMT queries; replay on the real stack"},
+            {"name": "symx", "path": "vf/sym.py vf/env.py vf/core.py vf/lib.py vf/physical.py vf/bathsym.py vf/tsym.py vf/h5stub.py",
+             "serves_properties": sorted(k for k, v in CHECKS.items() if v.get("engine", "symx") == "symx"),
+             "kind_free_text": "E1: concolic/symbolic executor for the real numpy/tensornetwork code over z3 terms (symbolic scalars in object arrays, path forking, stubs for LAPACK/QUADPACK/HDF5 contracts); SMT queries; replay of models on the real stack"},
+            {"name": "fpx", "path": "vf/fpx.py", "serves_properties": sorted(k for k, v in CHECKS.items() if v.get("engine") == "fpx" or k in ("C13", "C15")),
+             "kind_free_text": "E2: twin-encoded doubles (bit-precise QF_BVFP for counterexamples, rounding-error model over reals for the holds verdict) evaluated through the real expressions"},
+            {"name": "thx", "path": "vf/thx.py vf/thx_replay.py", "serves_properties": sorted(k for k, v in CHECKS.items() if v.get("engine") == "thx"),
+             "kind_free_text": "E3: transition system lowered from the real bytecode/AST of the progress-bar protocol and of every API that creates a progress object; z3 bounded model checking over thread schedules and fault points; replay with real threads"},
         ],
         "checks": checks,
         "not_applicable": na,
